@@ -10,7 +10,7 @@ from fractions import Fraction
 
 import z3
 
-from symjnp import engine, ops, smt, values
+from symjnp import engine, numeval, ops, smt, values
 from symjnp.smt import CX, PI
 
 from .base import T, arr
@@ -102,7 +102,26 @@ def S(gname, part):
     key = (gname, part)
     if key not in _S:
         _S[key] = z3.Function(f"CSUM_{gname}_{part}", z3.RealSort(), z3.RealSort(), z3.RealSort(), z3.IntSort(), z3.IntSort(), z3.RealSort())
+        # its meaning for the numeric evaluator of native replays: the finite sum itself, in complex floating point
+        numeval.NUMERIC_UF[f"CSUM_{gname}_{part}"] = (lambda zr, zi, r, M, j, g=gname, p=part: _num_partial(g, p, zr, zi, r, M, j))
     return _S[key]
+
+
+def _num_g(gname, w):
+    import cmath
+    e = cmath.exp
+    return {"phi1_half": lambda: (e(w / 2) - 1) / w, "phi1": lambda: (e(w) - 1) / w, "phi2": lambda: (e(w) - 1 - w) / w ** 2,
+            "alpha": lambda: (-4 - w + e(w) * (4 - 3 * w + w ** 2)) / w ** 3, "beta": lambda: (2 + w + e(w) * (-2 + w)) / w ** 3,
+            "beta4": lambda: 4 * (2 + w + e(w) * (-2 + w)) / w ** 3, "gamma": lambda: (-4 - 3 * w - w ** 2 + e(w) * (4 - w)) / w ** 3}[gname]()
+
+
+def _num_partial(gname, part, zr, zi, r, M, j):
+    import cmath
+    import math
+    s = 0j
+    for l in range(int(j)):
+        s += _num_g(gname, complex(zr, zi) + r * cmath.exp(2j * math.pi * (l + 0.5) / M))
+    return s.real if part == "re" else s.imag
 
 
 def root(j, M):
